@@ -54,6 +54,12 @@ func DeriveKeysetPath(key *hdkeychain.ExtendedKey, index uint32) (*hdkeychain.Ex
 }
 
 func GenerateKeyset(master *hdkeychain.ExtendedKey, index uint32, inputFeePpk uint, active bool) (*MintKeyset, error) {
+	// the fee is kept in a signed 64-bit column: a larger one would be stored as a
+	// negative number and the keysets could not be read back
+	if inputFeePpk > math.MaxInt64 {
+		return nil, fmt.Errorf("input fee %v is too large", inputFeePpk)
+	}
+
 	keys := make(map[uint64]KeyPair, MAX_ORDER)
 
 	keysetPath, err := DeriveKeysetPath(master, index)
